@@ -51,10 +51,22 @@ def make_post_selection(lw, rng, k):
                 break
             modes = tuple(sorted(rng.choice(avail, size=size, replace=False).tolist()))
             nums = tuple(sorted(set(rng.integers(0, 3, size=int(rng.integers(1, 3))).tolist())))
+            # the rule in one of the equivalent forms add() accepts (single values or sequences; tuples, lists,
+            # shuffled order, numpy integers)
+            f_m, f_n = list(modes), list(nums)
+            if rng.random() < 0.4:
+                rng.shuffle(f_m); rng.shuffle(f_n)
+            form = int(rng.integers(4))
+            if form == 1:
+                f_m, f_n = tuple(f_m), tuple(f_n)
+            elif form == 2:
+                f_m, f_n = [np.int64(x) for x in f_m], tuple(np.int64(x) for x in f_n)
+            elif form == 3:
+                f_m, f_n = tuple(f_m), list(f_n)
             if size == 1 and rng.random() < 0.5:
-                ps.add(modes[0], nums if len(nums) > 1 else nums[0])
+                ps.add(f_m[0], f_n if len(f_n) > 1 else f_n[0])
             else:
-                ps.add(modes, nums)
+                ps.add(f_m, f_n)
             used.update(modes)
             rules.append((modes, nums))
         return ps, "rules", (lambda s, rules=tuple(rules): all(sum(s[m] for m in ms) in ns for ms, ns in rules))
